@@ -12,15 +12,17 @@ import copy
 import importlib
 
 from .core import Report, VIOLATED
-from .model import Module, Program
+from .model import AnalysisError, Module, Program
 
 
 def mutated_program(prog: Program, edits) -> Program | None:
     p2 = Program.__new__(Program)
+    p2.__dict__.update({k: v for k, v in prog.__dict__.items()})   # every attribute, then the per-program state anew
     p2.repo = prog.repo
     p2.modules = {}
     p2.classes = {}
     p2._mro_cache = {}
+    p2._passed_cache = {}
     touched = {}
     for path, old, new in edits:
         touched.setdefault(path, []).append((old, new))
@@ -66,8 +68,12 @@ def run_audit(prog: Program, rep: Report, pid: str):
             from .rules import bij
             bij._cache.clear()
             mod.run(p2, sub, "quick")
-        except Exception as e:  # the breach made the analysis undecidable: counts as detected-not-silent
+        except AnalysisError as e:  # the breach made the analysis undecidable: detected, not silent
             rep.audit.append({"variant": v["id"], "flipped": False, "note": f"analysis error: {e}"[:200]})
+            continue
+        except Exception as e:  # a bug of the audit itself must not pass for a performed audit
+            rep.audit.append({"variant": v["id"], "flipped": False, "note": f"audit exception: {e!r}"[:200]})
+            rep.undecided(f"{pid}.audit", "-", v["id"], f"sensitivity audit could not run: {e!r}"[:300])
             continue
         finally:
             from .rules import bij
@@ -80,4 +86,7 @@ def run_audit(prog: Program, rep: Report, pid: str):
         if not hits:
             rep.undecided(f"{pid}.audit", "-", v["id"],
                           f"sensitivity audit: canned breach '{v['id']}' did not flip any obligation to VIOLATED")
+    if n == 0:
+        rep.undecided(f"{pid}.audit", "-", "audit-ran", "sensitivity audit applied no variant (corpus missing or every "
+                                                        "variant failed to apply): the thorough tier proved nothing extra")
     rep.notes.append(f"sensitivity audit: {n} in-memory breach variants applied")
